@@ -1,0 +1,38 @@
+//go:build verif
+
+/*
+Verification hook (build tag `verif`): exports the unexported cache facade so an
+out-of-tree harness can run the real converters over a controller-runtime fake
+client. Not compiled in regular builds.
+*/
+
+package services
+
+import (
+	"context"
+
+	"sigs.k8s.io/controller-runtime/pkg/client"
+
+	"github.com/jcmoraisjr/haproxy-ingress/pkg/acme"
+	"github.com/jcmoraisjr/haproxy-ingress/pkg/controller/config"
+	convtypes "github.com/jcmoraisjr/haproxy-ingress/pkg/converters/types"
+)
+
+// VerifCache is the method set of the real cache facade.
+type VerifCache interface {
+	convtypes.Cache
+	IsValidResource
+	acme.Cache
+}
+
+// VerifNewCache builds the real cache facade over the given client and also
+// returns the fake certificate and CA the controller generates on startup.
+func VerifNewCache(ctx context.Context, cli client.Client, cfg *config.Config, tracker convtypes.Tracker, dynconfig *convtypes.DynamicConfig) (VerifCache, convtypes.CrtFile, convtypes.CrtFile, error) {
+	sslCerts := CreateSSLCerts(cfg)
+	fakeCrt, fakeCA, err := sslCerts.createFakeCertAndCA()
+	if err != nil {
+		return nil, fakeCrt, fakeCA, err
+	}
+	cache := createCacheFacade(ctx, cli, cfg, tracker, sslCerts, dynconfig, func(client.Object) {})
+	return cache, fakeCrt, fakeCA, nil
+}
